@@ -58,6 +58,7 @@ type c21State struct {
 	outstanding      bool      // a Save of this cache object failed and none has reported true since (a reload starts a new object)
 	alts             [][]c21Item // contents of the cache at each failed Save since then: a damaged file may hold one of them instead of saved
 	stor             data_model.VerifC21Snap // the storage object's own state (size of the file when it was opened, position, hash, write error ...) as left by the last Save / reload of this history: ONE storage object lives from a (re)load to the next reload, c21Build resumes it instead of opening a new one
+	root             string // the configuration the cache object of this history was constructed with
 	hist             []string
 	k                string
 	evicted          bool // the step into this state went through the eviction path (statistics only)
@@ -357,7 +358,7 @@ func (se *c21Search) c21Apply(s *c21State, op *c21Op, order []int, expired map[s
 	}
 	now := s.now
 	ns := &c21State{maxSize: s.maxSize, maxTTL: s.maxTTL, now: s.now, dirty: s.dirty, file: s.file, saved: s.saved,
-		refDirty: s.refDirty, faults: s.faults, damaged: s.damaged, outstanding: s.outstanding, alts: s.alts, stor: s.stor}
+		refDirty: s.refDirty, faults: s.faults, damaged: s.damaged, outstanding: s.outstanding, alts: s.alts, stor: s.stor, root: s.root}
 	accepted = true
 	evicted := false
 	visited := func() map[string]bool {
@@ -652,7 +653,7 @@ func (se *c21Search) c21Expand(s *c21State, op *c21Op) (succ []*c21State) {
 			for _, i := range ord {
 				ks = append(ks, s.items[i].k)
 			}
-			se.rep.Violate(sig, desc+" | history: "+strings.Join(hist, " ")+fmt.Sprintf(" | map order %v", ks), map[string]any{"history": hist, "map_order": ks})
+			se.rep.Violate(sig, desc+" | history: "+s.root+" "+strings.Join(hist, " ")+fmt.Sprintf(" | map order %v", ks), map[string]any{"history": hist, "map_order": ks})
 			continue
 		}
 		ns.hist = append(append([]string(nil), s.hist...), op.name)
@@ -721,7 +722,7 @@ func TestVerifC21(t *testing.T) {
 	rep.Bounds["cache_storage_faults_per_history"] = fmt.Sprintf("%d, at any position but the last", faultBudget)
 	rep.Bounds["cache_operations_after_a_fault"] = "save, reload, add(k,v) per key, removeByTTL(100), clock+1, further faulted saves"
 	rep.Bounds["cache_keys"] = "a/bb/cccc/dddddddd and aaaaaaaa/bbbb/cc/d (sizes 33,34,37,42 in both orders of the tie-break)"
-	rep.Bounds["cache_configs"] = "maxSize 70/112/1000 x maxTTL 0/2"
+	rep.Bounds["cache_configs"] = "maxSize 70/112/1000 x maxTTL 0/2, as the configuration at construction (6 roots) and through setSizeTTL"
 	rep.Assume("Go map iteration visits a small map's slots in insertion order starting at a random offset (checked by a self-test at start); all n! insertion orders are executed, which covers every visiting order")
 	rep.Assume("MappingsCache.deterministic=true (the package's own test switch): entries with equal access time are evicted in key order; other tie-breaks are covered by the second key family with reversed sizes")
 	rep.Assume("one AddValues call never carries the same string twice (the aggregator builds the list from a map); sequential calls only, concurrency of GetValue with writers is outside this check")
@@ -734,12 +735,20 @@ func TestVerifC21(t *testing.T) {
 		}
 		se := &c21Search{rep: rep, keys: keys, faultBudget: faultBudget, depth: depth, postOnly: true}
 		ops := c21Ops(keys)
-		init := &c21State{maxSize: 1000, maxTTL: 0, now: 1000}
-		seen := map[string]bool{init.key(): true}
-		frontier := []*c21State{init}
+		// the cache is constructed with every configuration of the setSizeTTL alphabet (NewMappingsCache takes the size
+		// and TTL): with a small size from the start a history of the same depth reaches save / evict / save
+		seen := map[string]bool{}
+		var frontier []*c21State
+		for _, sz := range []int64{1000, 70, 112} {
+			for _, ttl := range []int64{0, 2} {
+				init := &c21State{maxSize: sz, maxTTL: ttl, now: 1000, root: fmt.Sprintf("newCache(%d,%d)", sz, ttl)}
+				seen[init.key()] = true
+				frontier = append(frontier, init)
+			}
+		}
 		var mu sync.Mutex
 		transitions := 0
-		levels := []int{1}
+		levels := []int{len(frontier)}
 		done := 0
 		for d := 0; d < depth && len(frontier) > 0; d++ {
 			var next []*c21State
